@@ -38,21 +38,29 @@ class DistinguisherMixin(abc.ABC):
         logger.info(f'Start update of distinguisher {self.__class__.__name__} with traces {traces.shape} and data {data.shape}.')
         o_shape = data.shape
         data = data.reshape((o_shape[0], -1))
+        # A refused batch must leave the distinguisher as it was: every _update raises before its first
+        # in-place accumulation, so restoring the attribute bindings is enough.
+        state = dict(self.__dict__)
         try:
-            self._origin_shape
-        except AttributeError:
-            logger.debug('Initialize distinguisher state.')
-            self._origin_shape = o_shape
-            logger.debug(f'Origin shape {self._origin_shape}')
-            mem = psutil.virtual_memory().available / 2 ** 30
-            logger.debug(f'Memory usage before compute {mem} GB.')
-            self._initialize(traces=traces, data=data)
+            try:
+                self._origin_shape
+            except AttributeError:
+                logger.debug('Initialize distinguisher state.')
+                self._origin_shape = o_shape
+                logger.debug(f'Origin shape {self._origin_shape}')
+                mem = psutil.virtual_memory().available / 2 ** 30
+                logger.debug(f'Memory usage before compute {mem} GB.')
+                self._initialize(traces=traces, data=data)
 
-        self._check(traces=traces, data=data)
+            self._check(traces=traces, data=data)
 
-        self.processed_traces += traces.shape[0]
-        logger.info('Will call _update traces.')
-        self._update(traces=traces, data=data)
+            self.processed_traces += traces.shape[0]
+            logger.info('Will call _update traces.')
+            self._update(traces=traces, data=data)
+        except Exception:
+            self.__dict__.clear()
+            self.__dict__.update(state)
+            raise
 
     @abc.abstractmethod
     def _initialize(self, traces, data):
